@@ -19,6 +19,8 @@ import (
 	"testing"
 	"time"
 
+	"github.com/buchgr/bazel-remote/v2/cache"
+	"github.com/buchgr/bazel-remote/v2/cache/disk"
 	asset "github.com/buchgr/bazel-remote/v2/genproto/build/bazel/remote/asset/v1"
 	pb "github.com/buchgr/bazel-remote/v2/genproto/build/bazel/remote/execution/v2"
 	"google.golang.org/genproto/googleapis/bytestream"
@@ -121,6 +123,48 @@ func TestVerifServerFdLeaks(t *testing.T) {
 			}
 		}
 		f.Close()
+	}
+	// action-cache lookups that end in "not found" although the index holds an entry: an entry of
+	// length zero (delivered by a back end; every lookup after the first finds it in the local index) and an entry that
+	// is not an ActionResult. Every lookup path must give its file back.
+	for _, mode := range []string{"uncompressed", "zstd"} {
+		for _, deps := range []bool{false, true} {
+			px := &vMemProxy{m: map[string]vMemEntry{}}
+			f := vNewFix(t, vFixOpts{mode: mode, depsCheck: deps, validateAC: false, extra: []disk.Option{disk.WithProxyBackend(px)}})
+			rdir, _ := os.Readlink(f.dir)
+			if rdir == "" {
+				rdir = f.dir
+			}
+			keys := map[string][]byte{"empty": {}, "garbage": []byte("\xff\xff\xffnot an action result\x00\x01")}
+			for _, what := range []string{"garbage", "empty"} {
+				body := keys[what]
+				rec.Case()
+				key := vSha([]byte("fdleak-ac-" + what + mode + fmt.Sprint(deps)))
+				// the entry is held by the back end only (a local upload of length zero is not stored)
+				px.m[px.key(cache.AC, key)] = vMemEntry{data: body, logical: int64(len(body))}
+				for i := 0; i < 20; i++ {
+					_, _ = f.ac.GetActionResult(context.Background(), &pb.GetActionResultRequest{ActionDigest: &pb.Digest{Hash: key, SizeBytes: 1}})
+					_, _, _ = f.vHTTPDo("GET", "/ac/"+key, nil, nil)
+					_, _, _ = f.vHTTPDo("HEAD", "/ac/"+key, nil, nil)
+				}
+				var open []string
+				for i := 0; i < 40; i++ {
+					open = vOpenFdsInto(rdir)
+					if len(open) == 0 {
+						break
+					}
+					time.Sleep(50 * time.Millisecond)
+				}
+				sig := fmt.Sprintf("%s.ac-%s.depsCheck=%v", mode, what, deps)
+				rec.Note(fmt.Sprintf("%s -> %d descriptors left", sig, len(open)))
+				rec.Count(fmt.Sprintf("left=%d", len(open)))
+				rec.Distinct(sig)
+				if len(open) > 0 {
+					rec.Violation("C14", "fdleak.ac-"+what, fmt.Sprintf("%s: %d file descriptor(s) on cache files still open 2 s after 20 GetActionResult / GET / HEAD lookups of an action-cache entry that is %s (e.g. %s)", sig, len(open), what, open[0]), map[string]string{"case": sig})
+				}
+			}
+			f.Close()
+		}
 	}
 }
 
